@@ -18,6 +18,8 @@ import TdVerif.Gen.C02Src
 import TdVerif.Model.C17Pins
 import TdVerif.Model.C17Ctx
 import TdVerif.Lemmas.C17
+import TdVerif.Model.C17World
+import TdVerif.Lemmas.C17World
 
 namespace TdVerif.Props.C17
 open TdVerif TdVerif.C02 TdVerif.C17
@@ -1016,6 +1018,17 @@ theorem flatten_keys_exit_rebinds (c : Call) (ch : Char) (out ys : Binds)
   refine ⟨writeBackB false out ys, ?_, writeBackB_unlocked_rebinds ys out hpw⟩
   simp only [exitBinds, invBinds, hop, bind, Except.bind, pure, Except.pure, hback]
 
+/-- the exit of a SHAPE context manager on bindings (any op, any spelling the binder accepts): the paths are those of the yielded object;
+an unlocked original ends up naming, under every path, the tensor the (modified) yielded object names there — a locked one keeps its own -/
+theorem shape_exit_rebinds (name : String) (c : Call) (op : Op) (out ys : Binds)
+    (hop : toOp name c = .ok (.shape op)) (hpw : ys.Pairwise (fun p q => Unrelated p.1 q.1)) :
+    (∃ r, exitBinds name c false out ys = .ok r ∧ ∀ p ∈ ys, lookupB r p.1 = some p.2) ∧
+    exitBinds name c true out ys = .ok out := by
+  constructor
+  · refine ⟨writeBackB false out ys, ?_, writeBackB_unlocked_rebinds ys out hpw⟩
+    simp only [exitBinds, invBinds, hop, bind, Except.bind, pure, Except.pure]
+  · simp only [exitBinds, invBinds, hop, bind, Except.bind, pure, Except.pure, writeBackB, if_true]
+
 /-! ## the original is a temporary -/
 
 /-- a context-managed call on a TEMPORARY original whose method returned a new object never raises at exit, whatever the op, the
@@ -1030,6 +1043,185 @@ theorem temp_block_self_is_block (name : String) (c : Call) (edits : List Edit) 
     (hf : fwd name c s = .ok y) (hs : y.isSelf = true) :
     withTempBlock name c edits s = withBlock name c edits s := by
   simp only [withTempBlock, withBlock, hf, bind, Except.bind, hs, if_true]
+
+/-! ### several objects: one `_last_op_queue` per object (Model/C17World.lean) -/
+
+/-- the heap model agrees with the one-block model: the program `with x0.<name>(<call>) as x1: <edits>` run in a world that holds
+only the original leaves it as `withBlock` says (same result, same exception) -/
+theorem world_block_is_withBlock (name : String) (c : Call) (es : List Edit) (orig : St) :
+    (runSteps (World.init [orig]) (blockProg name c es)).map (·.stOf 0) = withBlock name c es orig := by
+  simp only [blockProg, runSteps, runStep, wCall, withBlock, World.init, World.var, wEnter, wEdits, wExit, wExitObj, World.set,
+    List.range, List.length, List.getD]
+  cases h : fwd name c orig with
+  | error e => simp [h, Obj.fresh, bind, Except.bind, Except.map, List.range, List.range.loop]
+  | ok y =>
+    obtain ⟨st, isSelf, recorded⟩ := y
+    cases isSelf <;> cases recorded <;>
+    · simp [h, Obj.fresh, bind, Except.bind, Except.map, List.range, List.range.loop, pure, Except.pure, wExitWith, World.stOf, World.var, World.set,
+        exitBlock_unrecorded]
+      cases h2 : applyEdits st es with
+      | error e => simp
+      | ok y' =>
+        simp [wExitWith, World.stOf, World.var, World.set, exitBlock_unrecorded]
+        try (cases h3 : exitBlock name c true _ y' _ <;> simp [World.stOf, World.var, World.set])
+
+/-- FRAME: a normal exit of object `j` writes nothing outside its footprint (`j` and the object its top record points at) -/
+theorem exit_writes_only_its_footprint (w w' : World) (j : Nat) (h : wExitObj w j = .ok w') :
+    w'.next = w.next ∧ w'.vars = w.vars ∧ ∀ i, i ∉ footprint w j → w'.objs i = w.objs i := by
+  unfold wExitObj at h
+  cases hq : (w.objs j).queue with
+  | nil => simp [hq] at h
+  | cons r q =>
+    rw [hq] at h
+    cases r with
+    | none =>
+      simp [wExitWith] at h; subst h
+      simp [World.set, footprint, hq]
+      intro i hi; simp [hi]
+    | some r =>
+      simp only [wExitWith, bind, Except.bind] at h
+      split at h
+      · simp at h
+      · simp [pure, Except.pure] at h; subst h
+        simp [World.set, footprint, hq]
+        intro i h1 h2; simp [h1, h2]
+
+/-- a normal exit only looks at its footprint: two worlds that agree there give results that agree there -/
+theorem exit_reads_only_its_footprint (w1 w2 : World) (j : Nat) (hj : w1.objs j = w2.objs j)
+    (hs : ∀ i ∈ footprint w1 j, w1.objs i = w2.objs i) (w1' : World) (h : wExitObj w1 j = .ok w1') :
+    ∃ w2', wExitObj w2 j = .ok w2' ∧ ∀ i ∈ footprint w1 j, w2'.objs i = w1'.objs i := by
+  unfold wExitObj at h ⊢
+  rw [← hj]
+  cases hq : (w1.objs j).queue with
+  | nil => simp [hq] at h
+  | cons r q =>
+    rw [hq] at h
+    cases r with
+    | none =>
+      simp [wExitWith] at h; subst h
+      refine ⟨_, rfl, ?_⟩
+      intro i hi
+      simp [footprint, hq] at hi
+      simp [World.set, hi]
+    | some r =>
+      have hsrc : w1.objs r.src = w2.objs r.src := hs _ (by simp [footprint, hq])
+      simp only [wExitWith, bind, Except.bind, World.set] at h ⊢
+      by_cases hrj : r.src = j
+      · simp [hrj] at h ⊢
+        split at h
+        · simp at h
+        · rename_i st' he
+          simp [pure, Except.pure] at h; subst h
+          simp [pure, Except.pure, footprint, hq, hrj]
+      · simp [hrj] at h ⊢
+        rw [← hsrc]
+        split at h
+        · simp at h
+        · rename_i st' he
+          simp [pure, Except.pure] at h; subst h
+          simp [pure, Except.pure, footprint, hq]
+
+/-- blocks on DISTINCT objects commute: when the footprints of two pending exits are disjoint, closing `j` then `k` and closing `k`
+then `j` both succeed and reach the SAME world, in which each footprint is what its own exit alone would have made of it and
+everything else is untouched.  (The deque is per object — base.py:__enter__ `self._last_op_queue` — so the pop of one object never
+sees the record of another; with one deque for all objects the non-LIFO order would pop the other block's record, see the
+example at the end of the file.) -/
+theorem exits_on_distinct_objects_commute (w wj wk : World) (j k : Nat) (hd : ∀ a ∈ footprint w j, a ∉ footprint w k)
+    (hj : wExitObj w j = .ok wj) (hk : wExitObj w k = .ok wk) :
+    ∃ w', wExitObj wj k = .ok w' ∧ wExitObj wk j = .ok w' ∧
+      (∀ i ∈ footprint w j, w'.objs i = wj.objs i) ∧ (∀ i ∈ footprint w k, w'.objs i = wk.objs i) ∧
+      (∀ i, i ∉ footprint w j → i ∉ footprint w k → w'.objs i = w.objs i) := by
+  have hd' : ∀ a ∈ footprint w k, a ∉ footprint w j := fun a ha hb => hd a hb ha
+  obtain ⟨fjn, fjv, fj⟩ := exit_writes_only_its_footprint w wj j hj
+  obtain ⟨fkn, fkv, fk⟩ := exit_writes_only_its_footprint w wk k hk
+  have kk : k ∈ footprint w k := by simp [footprint]
+  have jj : j ∈ footprint w j := by simp [footprint]
+  obtain ⟨a, ha, la⟩ := exit_reads_only_its_footprint w wj k (fj k (hd' k kk)).symm (fun i hi => (fj i (hd' i hi)).symm) wk hk
+  obtain ⟨b, hb, lb⟩ := exit_reads_only_its_footprint w wk j (fk j (hd j jj)).symm (fun i hi => (fk i (hd i hi)).symm) wj hj
+  obtain ⟨fan, fav, fa⟩ := exit_writes_only_its_footprint wj a k ha
+  obtain ⟨fbn, fbv, fb⟩ := exit_writes_only_its_footprint wk b j hb
+  rw [← footprint_congr w wj k (fj k (hd' k kk)).symm] at fa
+  rw [← footprint_congr w wk j (fk j (hd j jj)).symm] at fb
+  have hab : a = b := by
+    apply World.ext'
+    · rw [fan, fbn, fjn, fkn]
+    · rw [fav, fbv, fjv, fkv]
+    · intro i
+      by_cases hi : i ∈ footprint w j
+      · rw [fa i (hd i hi), lb i hi]
+      · by_cases hi2 : i ∈ footprint w k
+        · rw [la i hi2, fb i hi]
+        · rw [fa i hi2, fb i hi, fj i hi, fk i hi2]
+  subst hab
+  refine ⟨a, ha, hb, ?_, la, ?_⟩
+  · intro i hi; exact fa i (hd i hi)
+  · intro i h1 h2; rw [fa i h2, fj i h1]
+
+/-- two blocks on two different originals, entered A then B and closed in EITHER order (`aFirst = true` is not last-in-first-out):
+each original ends as its own block alone would leave it — for every pair of context ops, spellings and edits -/
+theorem interleaved_is_two_blocks (n1 : String) (c1 : Call) (e1 : List Edit) (n2 : String) (c2 : Call) (e2 : List Edit)
+    (aFirst : Bool) (sa sb a' b' : St)
+    (ha : withBlock n1 c1 e1 sa = .ok a') (hb : withBlock n2 c2 e2 sb = .ok b') :
+    ∃ w, runSteps (World.init [sa, sb]) (interleavedProg n1 c1 e1 n2 c2 e2 aFirst) = .ok w ∧ w.stOf 0 = a' ∧ w.stOf 1 = b' := by
+  simp only [withBlock] at ha hb
+  cases h1 : fwd n1 c1 sa with
+  | error e => simp [h1, bind, Except.bind] at ha
+  | ok y1 =>
+  cases h2 : fwd n2 c2 sb with
+  | error e => simp [h2, bind, Except.bind] at hb
+  | ok y2 =>
+  obtain ⟨st1, self1, rec1⟩ := y1
+  obtain ⟨st2, self2, rec2⟩ := y2
+  simp only [h1, h2, bind, Except.bind] at ha hb
+  cases g1 : applyEdits st1 e1 with
+  | error e => simp [g1] at ha
+  | ok y1' =>
+  cases g2 : applyEdits st2 e2 with
+  | error e => simp [g2] at hb
+  | ok y2' =>
+  simp only [g1, g2] at ha hb
+  cases aFirst <;> cases self1 <;> cases self2 <;> cases rec1 <;> cases rec2 <;>
+    simp [exitBlock_unrecorded] at ha hb <;>
+    simp [interleavedProg, runSteps, runStep, wCall, World.init, World.var, wEnter, wEdits, wExit, wExitObj, World.set, wExitWith,
+      Obj.fresh, bind, Except.bind, pure, Except.pure, h1, h2, g1, g2, World.stOf, List.range, List.range.loop] <;>
+    simp [ha, hb, World.set]
+
+/-- … and conversely the interleaved program only returns normally when each block alone does -/
+theorem interleaved_ok_only_if_both (n1 : String) (c1 : Call) (e1 : List Edit) (n2 : String) (c2 : Call) (e2 : List Edit)
+    (aFirst : Bool) (sa sb : St) (w : World)
+    (h : runSteps (World.init [sa, sb]) (interleavedProg n1 c1 e1 n2 c2 e2 aFirst) = .ok w) :
+    ∃ a' b', withBlock n1 c1 e1 sa = .ok a' ∧ withBlock n2 c2 e2 sb = .ok b' := by
+  simp only [withBlock]
+  cases h1 : fwd n1 c1 sa with
+  | error e =>
+    simp [interleavedProg, runSteps, runStep, wCall, World.init, World.var, Obj.fresh, bind, Except.bind, h1, List.range, List.range.loop] at h
+  | ok y1 =>
+  obtain ⟨st1, self1, rec1⟩ := y1
+  cases h2 : fwd n2 c2 sb with
+  | error e =>
+    cases self1 <;>
+    simp [interleavedProg, runSteps, runStep, wCall, World.init, World.var, World.set, Obj.fresh, bind, Except.bind, pure, Except.pure, h1, h2, List.range, List.range.loop] at h
+  | ok y2 =>
+  obtain ⟨st2, self2, rec2⟩ := y2
+  cases g1 : applyEdits st1 e1 with
+  | error e =>
+    cases self1 <;> cases self2 <;>
+    simp [interleavedProg, runSteps, runStep, wCall, World.init, World.var, World.set, wEnter, wEdits, Obj.fresh, bind, Except.bind, pure, Except.pure, h1, h2, g1, List.range, List.range.loop] at h
+  | ok y1' =>
+  cases g2 : applyEdits st2 e2 with
+  | error e =>
+    cases self1 <;> cases self2 <;>
+    simp [interleavedProg, runSteps, runStep, wCall, World.init, World.var, World.set, wEnter, wEdits, Obj.fresh, bind, Except.bind, pure, Except.pure, h1, h2, g1, g2, List.range, List.range.loop] at h
+  | ok y2' =>
+  simp only [bind, Except.bind, g1, g2]
+  obtain ⟨r1, k1⟩ : ∃ r, exitBlock n1 c1 rec1 self1 y1' (if self1 = true then y1' else sa) = r := ⟨_, rfl⟩
+  obtain ⟨r2, k2⟩ : ∃ r, exitBlock n2 c2 rec2 self2 y2' (if self2 = true then y2' else sb) = r := ⟨_, rfl⟩
+  rw [k1, k2]
+  cases aFirst <;> cases self1 <;> cases self2 <;> cases rec1 <;> cases rec2 <;>
+    simp only [Bool.false_eq_true, ↓reduceIte] at k1 k2 <;>
+    simp [interleavedProg, runSteps, runStep, wCall, World.init, World.var, wEnter, wEdits, wExit, wExitObj, World.set, wExitWith,
+      Obj.fresh, bind, Except.bind, pure, Except.pure, h1, h2, g1, g2, List.range, List.range.loop] at h <;>
+    cases r1 <;> cases r2 <;> simp_all [exitBlock_unrecorded]
 
 example : (withBlock "transpose" ⟨[], [("dim0", .int 1), ("dim1", .int (-1))]⟩ [.addKey [['z']]]
       ⟨[1, 2, 3], none, [[['a']]], false⟩).toOption = some ⟨[1, 2, 3], none, [[['a']], [['z']]], false⟩ := by decide
@@ -1049,4 +1241,14 @@ example : (withBlock "unflatten" ⟨[.int (-1)], [("unflattened_size", .ints [3]
 -- two entries exchanged inside the block: exchanged in an unlocked original, bindings untouched in a locked one
 example : writeBackB false [([['a']], 1), ([['b']], 2)] [([['a']], 2), ([['b']], 1)] = [([['a']], 2), ([['b']], 1)] := by decide
 example : writeBackB true [([['a']], 1), ([['b']], 2)] [([['a']], 2), ([['b']], 1)] = [([['a']], 1), ([['b']], 2)] := by decide
+
+-- one deque for ALL objects would break non-LIFO exits: A = `x0.transpose(0,1)`, B = `x1.unsqueeze(0)`, entered A then B; closing A
+-- first pops B's record and runs B's inverse on A's object.  With the per-object deque A's exit restores x0.
+example :
+    let w0 := World.init [⟨[2, 3], none, [[['a']]], false⟩, ⟨[4], none, [[['b']]], false⟩]
+    let prog : List Step := [.call 0 "transpose" ⟨[.int 0, .int 1], []⟩, .call 1 "unsqueeze" ⟨[.int 0], []⟩, .enter 2, .enter 3]
+    ((runSteps w0 prog).toOption.bind fun w => (wExit w 2).toOption.map (·.stOf 0)) = some ⟨[2, 3], none, [[['a']]], false⟩ ∧
+    ((runSteps w0 prog).toOption.bind fun w =>
+        (wExitShared [(w.objs 3).lastOp, (w.objs 2).lastOp] w 2).toOption.map (fun p => (p.1.stOf 0, p.1.stOf 1)))
+      ≠ some (⟨[2, 3], none, [[['a']]], false⟩, ⟨[4], none, [[['b']]], false⟩) := by decide
 end TdVerif.Props.C17
